@@ -1,5 +1,10 @@
 import TnVerif.Lemmas.Tools
+import TnVerif.Lemmas.Deriv
 import TnVerif.Model.Deriv
+import TnVerif.Model.DerivOps
+import TnVerif.Props.C02
+import TnVerif.Lemmas.PartialSet
+import TnVerif.Props.C16
 /-!
 # C20 — finite-difference calculus on compressed tensors matches the dense stencil
 
@@ -87,7 +92,8 @@ theorem stencil_interior (n i : Nat) (c : R) (g : Nat → R) (h0 : 0 < i) (h1 : 
     (∑ j ∈ range n, stencilL n c false i j * g j) = c * (g (i + 1) - g (i - 1)) := by
   have hi0 : ¬ i = 0 := by omega
   have hin : ¬ i + 1 = n := by omega
-  simp only [stencilL, hi0, hin, if_false, Bool.false_eq_true, add_mul, Finset.sum_add_distrib]
+  have hn1 : ¬ n = 1 := by omega
+  simp only [stencilL, hi0, hin, hn1, if_false, Bool.false_eq_true, add_mul, Finset.sum_add_distrib]
   rw [Finset.sum_eq_single (i + 1), Finset.sum_eq_single (i - 1)]
   · have : i - 1 + 1 = i := by omega
     simp [this]; ring
@@ -100,7 +106,8 @@ theorem stencil_interior (n i : Nat) (c : R) (g : Nat → R) (h0 : 0 < i) (h1 : 
 /-- first row (linear extrapolation): `2(x_1 − x_0)·c` -/
 theorem stencil_first (n : Nat) (c : R) (g : Nat → R) (h : 2 ≤ n) :
     (∑ j ∈ range n, stencilL n c false 0 j * g j) = (c + c) * (g 1 - g 0) := by
-  simp only [stencilL, if_true, Bool.false_eq_true, if_false, add_mul, Finset.sum_add_distrib]
+  have hn1 : ¬ n = 1 := by omega
+  simp only [stencilL, hn1, if_true, Bool.false_eq_true, if_false, add_mul, Finset.sum_add_distrib]
   rw [Finset.sum_eq_single 1, Finset.sum_eq_single 0]
   · simp; ring
   · intro j _ hj; simp [hj]
@@ -113,7 +120,8 @@ theorem stencil_last (n : Nat) (c : R) (g : Nat → R) (h : 2 ≤ n) :
     (∑ j ∈ range n, stencilL n c false (n - 1) j * g j) = (c + c) * (g (n - 1) - g (n - 2)) := by
   have h0 : ¬ n - 1 = 0 := by omega
   have h1 : n - 1 + 1 = n := by omega
-  simp only [stencilL, h0, h1, if_true, if_false, Bool.false_eq_true, add_mul, Finset.sum_add_distrib]
+  have hn1 : ¬ n = 1 := by omega
+  simp only [stencilL, h0, h1, hn1, if_true, if_false, Bool.false_eq_true, add_mul, Finset.sum_add_distrib]
   rw [Finset.sum_eq_single (n - 1), Finset.sum_eq_single (n - 2)]
   · have : n - 2 + 1 = n - 1 := by omega
     simp [this]; ring
@@ -148,4 +156,939 @@ theorem stencil_linear (n i : Nat) (c a b : R) (per : Bool) (g h : Nat → R) :
   apply Finset.sum_congr rfl; intro j _; ring
 
 end
+
+/-! ## Round 6: periodic stencil, the stencil as the code computes it, higher orders, linearity,
+    lists of modes, gradient / divergence / curl / laplacian -/
+
+section
+variable [CommRing R]
+
+/-! ### facts about `setAt` -/
+
+/-- `setAt` keeps the number of indices -/
+theorem setAt_length : ∀ (is : List Nat) (d j : Nat), (setAt is d j).length = is.length
+  | [], _, _ => rfl
+  | _ :: _, 0, _ => rfl
+  | _ :: is, d + 1, j => by simp [setAt, setAt_length is d j]
+
+/-- reading the replaced position gives the new index -/
+theorem getD_setAt_self : ∀ (is : List Nat) (d j : Nat), d < is.length → (setAt is d j).getD d 0 = j
+  | [], _, _, h => by simp at h
+  | _ :: _, 0, _, _ => rfl
+  | _ :: is, d + 1, j, h => by
+    simp only [setAt, List.getD_cons_succ]
+    exact getD_setAt_self is d j (by simpa using h)
+
+/-- the other positions are untouched -/
+theorem getD_setAt_ne : ∀ (is : List Nat) (d d' j : Nat), d ≠ d' → (setAt is d j).getD d' 0 = is.getD d' 0
+  | [], _, _, _, _ => rfl
+  | _ :: _, 0, 0, _, h => absurd rfl h
+  | _ :: _, 0, d' + 1, _, _ => rfl
+  | _ :: _, d + 1, 0, _, _ => rfl
+  | _ :: is, d + 1, d' + 1, j, h => by
+    simp only [setAt, List.getD_cons_succ]
+    exact getD_setAt_ne is d d' j (by omega)
+
+/-- replacing the same position twice: the last one wins -/
+theorem setAt_setAt_self : ∀ (is : List Nat) (d j j' : Nat), setAt (setAt is d j) d j' = setAt is d j'
+  | [], _, _, _ => rfl
+  | _ :: _, 0, _, _ => rfl
+  | i :: is, d + 1, j, j' => by simp only [setAt, setAt_setAt_self is d j j']
+
+/-- replacements at different positions commute -/
+theorem setAt_comm : ∀ (is : List Nat) (d d' j j' : Nat), d ≠ d' →
+    setAt (setAt is d j) d' j' = setAt (setAt is d' j') d j
+  | [], _, _, _, _, _ => rfl
+  | _ :: _, 0, 0, _, _, h => absurd rfl h
+  | _ :: _, 0, d' + 1, _, _, _ => rfl
+  | _ :: _, d + 1, 0, _, _, _ => rfl
+  | i :: is, d + 1, d' + 1, j, j', h => by
+    simp only [setAt]
+    rw [setAt_comm is d d' j j' (by omega)]
+
+/-- replacing a position by its own index changes nothing -/
+theorem setAt_getD_self : ∀ (is : List Nat) (d : Nat), setAt is d (is.getD d 0) = is
+  | [], _ => rfl
+  | _ :: _, 0 => rfl
+  | i :: is, d + 1 => by simp only [setAt, List.getD_cons_succ, setAt_getD_self is d]
+
+/-! ### item 1: the periodic stencil -/
+
+/-- **periodic rows**: entry `i` of the periodic derivative of a fibre `g` of size `n ≥ 1` is
+    `c·(g[(i+1) mod n] − g[(i−1) mod n])` (`(i + n − 1) % n` is `(i − 1) mod n` for `i < n`).
+    Holds for every `n ≥ 1`, including `n = 1` and `n = 2` where both neighbours coincide and the
+    result is `0`, exactly what `cores[..., list(range(1, n)) + [0], :] − cores[..., [-1] + list(range(0, n-1)), :]`
+    gives. -/
+theorem stencil_periodic (n i : Nat) (c : R) (g : Nat → R) (hn : 0 < n) :
+    (∑ j ∈ range n, stencilL n c true i j * g j) = c * (g ((i + 1) % n) - g ((i + n - 1) % n)) := by
+  simp only [stencilL, if_true, add_mul, Finset.sum_add_distrib]
+  rw [Finset.sum_eq_single ((i + 1) % n), Finset.sum_eq_single ((i + n - 1) % n)]
+  · simp; ring
+  · intro j _ hj; simp [hj]
+  · intro hh; exact absurd (Finset.mem_range.mpr (Nat.mod_lt _ hn)) hh
+  · intro j _ hj; simp [hj]
+  · intro hh; exact absurd (Finset.mem_range.mpr (Nat.mod_lt _ hn)) hh
+
+/-- the index lists the code builds for the periodic branch are the two `mod n` shifts:
+    `(list(range(1, n)) + [0])[i] = (i+1) mod n` and `([-1] + list(range(0, n−1)))[i] = (i−1) mod n`
+    (with `-1` denoting position `n − 1`), for every `n ≥ 1` and `i < n` -/
+theorem roll_index (n i : Nat) (hi : i < n) :
+    (rollFwd n).getD i 0 = (i + 1) % n ∧ (rollBwd n).getD i 0 = (i + n - 1) % n := by
+  constructor
+  · unfold rollFwd
+    by_cases h : i + 1 < n
+    · rw [List.getD_eq_getElem?_getD, List.getElem?_append_left (by simp; omega)]
+      rw [List.getElem?_range' (by omega), Nat.mod_eq_of_lt h]
+      simp; omega
+    · have hin : i + 1 = n := by omega
+      rw [List.getD_eq_getElem?_getD, List.getElem?_append_right (by simp; omega)]
+      simp [← hin]
+  · unfold rollBwd
+    cases i with
+    | zero => simp
+    | succ i =>
+      simp only [List.getD_cons_succ]
+      rw [List.getD_eq_getElem?_getD, List.getElem?_range (by omega)]
+      have : i + 1 + n - 1 = i + n := by omega
+      rw [this, Nat.add_mod_right, Nat.mod_eq_of_lt (by omega)]; simp
+
+/-- the periodic branch as the code computes it (index lists, subtraction, division by the step)
+    is the row formula of `stencil_periodic`, hence equals the model's `stencilL … true` — for
+    EVERY `n ≥ 1` -/
+theorem stencilStepsPer_eq (n i : Nat) (c : R) (x : Nat → R) (hi : i < n) :
+    stencilStepsPer n c x i = ∑ j ∈ range n, stencilL n c true i j * x j := by
+  rw [stencil_periodic n i c x (by omega)]
+  unfold stencilStepsPer
+  rw [(roll_index n i hi).1, (roll_index n i hi).2]; ring
+
+/-- the non-periodic branch as the code computes it (pad with the end values, extrapolate the two pad
+    entries linearly, central difference) equals the model's `stencilL … false` for every `n ≥ 2` -/
+theorem stencilStepsNP_eq (n i : Nat) (c : R) (x : Nat → R) (hn : 2 ≤ n) (hi : i < n) :
+    stencilStepsNP n c x i = ∑ j ∈ range n, stencilL n c false i j * x j := by
+  by_cases h0 : i = 0
+  · subst h0
+    rw [stencil_first n c x hn]
+    unfold stencilStepsNP
+    by_cases h2 : n = 2
+    · subst h2; simp; ring
+    · have e1 : ¬ (2 = n + 1) := by omega
+      have e2 : min 1 (n - 1) = 1 := by omega
+      simp [e1, e2]; ring
+  · by_cases h1 : i + 1 = n
+    · have hi' : i = n - 1 := by omega
+      rw [hi', stencil_last n c x hn]
+      unfold stencilStepsNP
+      obtain ⟨m, rfl⟩ : ∃ m, n = m + 2 := ⟨n - 2, by omega⟩
+      simp
+      ring
+    · rw [stencil_interior n i c x (by omega) (by omega)]
+      unfold stencilStepsNP
+      have e1 : ¬ (i + 2 = n + 1) := by omega
+      have e2 : ¬ (i + 2 = 0) := by omega
+      have e3 : ¬ (i = n + 1) := by omega
+      have e4 : min (i + 2 - 1) (n - 1) = i + 1 := by omega
+      have e5 : min (i - 1) (n - 1) = i - 1 := by omega
+      simp only [e1, e2, e3, h0, if_false, e4, e5]; ring
+
+/-- **size-1 mode, non-periodic**: on a mode of size 1 the code returns `0`
+    (pad `[x0, x0, x0]`, both extrapolation updates add `0`, `p[2] − p[0] = 0`) … -/
+theorem stencilStepsNP_one (c : R) (x : Nat → R) : stencilStepsNP 1 c x 0 = 0 := by
+  simp [stencilStepsNP]
+
+/-- … and so does the model's stencil matrix (`stencilL 1 c false = 0`; an earlier version of the model gave `−2c·x0` here —
+    found while proving `stencilStepsNP_eq`, repaired in the model): with `stencilStepsNP_eq` the non-periodic stencil of the
+    model is the code's operator for EVERY `n ≥ 1` -/
+theorem stencilL_one (c : R) (x : Nat → R) :
+    (∑ j ∈ range 1, stencilL 1 c false 0 j * x j) = stencilStepsNP 1 c x 0 := by
+  simp [stencilL, stencilStepsNP]
+
+end
+
+section
+variable [CommRing R]
+
+/-! ### item 2: any order -/
+
+/-- the dense single-mode difference operator: the stencil of mode `d` (size `shape[d]`, `c = 1/step`)
+    applied to the fibre of the array `f` through `idx` along mode `d`; every other index is untouched -/
+def denseD (shape : List Nat) (d : Nat) (c : R) (per : Bool) (f : List Nat → R) : List Nat → R := fun idx =>
+  ∑ j ∈ range (shape.getD d 0), stencilL (shape.getD d 0) c per (idx.getD d 0) j * f (setAt idx d j)
+
+/-- `partial1_dense`, restated with `denseD` -/
+theorem partial1_denseD (t : Tensor R) (d : Nat) (c : R) (per : Bool) (idx : List Nat) (hd : d < t.length)
+    (hi : idx.length = t.length) :
+    (t.partial1 d c per).dense idx = denseD t.shape d c per t.dense idx :=
+  partial1_dense t d c per idx hd hi
+
+/-- `denseD` looks at its argument only on the fibre through `idx` -/
+theorem denseD_congr (shape : List Nat) (d : Nat) (c : R) (per : Bool) (f g : List Nat → R) (idx : List Nat)
+    (h : ∀ j, f (setAt idx d j) = g (setAt idx d j)) : denseD shape d c per f idx = denseD shape d c per g idx := by
+  unfold denseD
+  apply Finset.sum_congr rfl; intro j _; rw [h j]
+
+/-- iterates of `denseD` on arrays that agree on all index lists of a given length -/
+theorem denseD_iterate_congr (shape : List Nat) (d : Nat) (c : R) (per : Bool) (N : Nat) (f g : List Nat → R)
+    (h : ∀ idx, idx.length = N → f idx = g idx) : ∀ (k : Nat) (idx : List Nat), idx.length = N →
+    (denseD shape d c per)^[k] f idx = (denseD shape d c per)^[k] g idx := by
+  intro k
+  induction k with
+  | zero => intro idx hi; exact h idx hi
+  | succ k ih =>
+    intro idx hi
+    rw [Function.iterate_succ_apply', Function.iterate_succ_apply']
+    apply denseD_congr; intro j
+    exact ih _ (by rw [setAt_length]; exact hi)
+
+/-- **shape and well-formedness are preserved** by a derivative of any order (`partial` changes only
+    the entries of core / factor `d`, never a size or a rank) -/
+theorem partialN_wf_shape (t : Tensor R) (d : Nat) (c : R) (per : Bool) (k : Nat) (ht : t.WF) :
+    (t.partialN d c per k).WF ∧ (t.partialN d c per k).shape = t.shape ∧
+      (t.partialN d c per k).length = t.length ∧ (t.partialN d c per k).ranksTT = t.ranksTT := by
+  refine ⟨partialN_WF t d c per k ht, partialN_shape t d c per k, partialN_length t d c per k, ?_⟩
+  induction k with
+  | zero => rfl
+  | succ k ih =>
+    rw [← ih]
+    simp only [Tensor.partialN]
+    generalize Tensor.partialN t d c per k = u
+    unfold Tensor.partial1
+    generalize (List.map (fun k => if k = d then some (u.shape.getD d 0, stencilL (u.shape.getD d 0) c per) else Option.none)
+      (List.range u.length)) = ls
+    have hrr : ∀ (ls : List (Option (Nat × (Nat → Nat → R)))) (v : Tensor R),
+        (v.linModes ls).map (·.core.rr) = v.map (·.core.rr) := by
+      intro ls
+      induction ls with
+      | nil => intro v; simp [Tensor.linModes]
+      | cons l ls ih2 =>
+        intro v
+        cases v with
+        | nil => cases l <;> simp [Tensor.linModes]
+        | cons m ms =>
+          cases l with
+          | none => simp [Tensor.linModes, ih2 ms]
+          | some p => obtain ⟨rows, L⟩ := p; simp [Tensor.linModes, ih2 ms, spatialLin_rr_dv]
+    cases u with
+    | nil => cases ls <;> simp [Tensor.linModes]
+    | cons m ms =>
+      cases ls with
+      | nil => simp [Tensor.linModes]
+      | cons l ls =>
+        have := hrr (l :: ls) (m :: ms)
+        cases l with
+        | none => simp only [Tensor.linModes, Tensor.ranksTT] at this ⊢; rw [this]
+        | some p =>
+          obtain ⟨rows, L⟩ := p
+          simp only [Tensor.linModes, Tensor.ranksTT] at this ⊢; rw [this, spatialLin_rl_dv]
+
+/-- **any order**: the order-`k` derivative along mode `d` decompresses to the dense single-mode stencil
+    operator applied `k` times to the decompressed array (the loop `for o in range(1, order + 1)`) -/
+theorem partialN_dense (t : Tensor R) (d : Nat) (c : R) (per : Bool) (hd : d < t.length) :
+    ∀ (k : Nat) (idx : List Nat), idx.length = t.length →
+    (t.partialN d c per k).dense idx = (denseD t.shape d c per)^[k] t.dense idx := by
+  intro k
+  induction k with
+  | zero => intro idx _; rfl
+  | succ k ih =>
+    intro idx hi
+    simp only [Tensor.partialN]
+    rw [partial1_denseD _ d c per idx (by rw [partialN_length]; exact hd) (by rw [partialN_length]; exact hi),
+      partialN_shape, Function.iterate_succ_apply']
+    apply denseD_congr; intro j
+    exact ih _ (by rw [setAt_length]; exact hi)
+
+/-- order 2, interior rows: `c²·(x_{i+2} − 2x_i + x_{i−2})` — the central difference is applied twice,
+    it is not the compact 3-point second difference -/
+theorem stencil2_interior (n i : Nat) (c : R) (g : Nat → R) (h0 : 2 ≤ i) (h1 : i + 2 < n) :
+    (∑ j ∈ range n, stencilL n c false i j * (∑ l ∈ range n, stencilL n c false j l * g l)) =
+      c * c * (g (i + 2) - (g i + g i) + g (i - 2)) := by
+  rw [stencil_interior n i c _ (by omega) (by omega), stencil_interior n (i + 1) c g (by omega) (by omega),
+    stencil_interior n (i - 1) c g (by omega) (by omega)]
+  have e1 : i + 1 - 1 = i := by omega
+  have e2 : i - 1 + 1 = i := by omega
+  have e3 : i - 1 - 1 = i - 2 := by omega
+  rw [e1, e2, e3]; ring
+
+/-! ### item 3: linearity, constants, affine functions -/
+
+/-- one step of `denseD` is linear -/
+theorem denseD_linear (shape : List Nat) (d : Nat) (c a b : R) (per : Bool) (f g : List Nat → R) (idx : List Nat) :
+    denseD shape d c per (fun i => a * f i + b * g i) idx =
+      a * denseD shape d c per f idx + b * denseD shape d c per g idx := by
+  unfold denseD
+  exact stencil_linear _ _ c a b per (fun j => f (setAt idx d j)) (fun j => g (setAt idx d j))
+
+/-- every iterate of `denseD` is linear -/
+theorem denseD_iterate_linear (shape : List Nat) (d : Nat) (c a b : R) (per : Bool) (f g : List Nat → R) :
+    ∀ (k : Nat) (idx : List Nat), (denseD shape d c per)^[k] (fun i => a * f i + b * g i) idx =
+      a * (denseD shape d c per)^[k] f idx + b * (denseD shape d c per)^[k] g idx := by
+  intro k
+  induction k with
+  | zero => intro idx; rfl
+  | succ k ih =>
+    intro idx
+    simp only [Function.iterate_succ_apply']
+    rw [← denseD_linear]
+    apply denseD_congr; intro j; exact ih _
+
+/-- **additivity**: the derivative (any order) of a compressed sum `t + u` decompresses to the sum of the
+    decompressed derivatives -/
+theorem partialN_add_dense (t u : Tensor R) (ht : t.WF) (hu : u.WF) (hs : t.shape = u.shape) (d : Nat) (c : R)
+    (per : Bool) (k : Nat) (idx : List Nat) (hd : d < t.length) (hi : idx.length = t.length) :
+    ((t.add u).partialN d c per k).dense idx =
+      (t.partialN d c per k).dense idx + (u.partialN d c per k).dense idx := by
+  obtain ⟨_, hsh⟩ := C02.add_wf_shape t u ht hu hs
+  have hlen : (t.add u).length = t.length := by simpa [shape_length] using congrArg List.length hsh
+  have hlu : u.length = t.length := by simpa [shape_length] using (congrArg List.length hs).symm
+  rw [partialN_dense _ d c per (by omega) k idx (by omega), partialN_dense t d c per hd k idx hi,
+    partialN_dense u d c per (by omega) k idx (by omega), hsh, ← hs]
+  have hfun : (t.add u).dense = fun i => 1 * t.dense i + 1 * u.dense i := by
+    funext i; rw [C02.add_dense t u ht hu hs i]; ring
+  rw [hfun, denseD_iterate_linear]; ring
+
+/-- additivity, first order (`partial1 (t + u) = partial1 t + partial1 u` on dense values) -/
+theorem partial1_add_dense (t u : Tensor R) (ht : t.WF) (hu : u.WF) (hs : t.shape = u.shape) (d : Nat) (c : R)
+    (per : Bool) (idx : List Nat) (hd : d < t.length) (hi : idx.length = t.length) :
+    ((t.add u).partial1 d c per).dense idx = (t.partial1 d c per).dense idx + (u.partial1 d c per).dense idx :=
+  partialN_add_dense t u ht hu hs d c per 1 idx hd hi
+
+/-- **homogeneity**: the derivative (any order) of `a · t` (`t * scalar`, computed with `ρ = |a|^(1/N)` on
+    every core and the sign on the first) decompresses to `a` times the decompressed derivative -/
+theorem partialN_scalarMul_dense (ρ sgn a : R) (t : Tensor R) (ht : t.WF) (ha : sgn * ρ ^ t.length = a) (d : Nat)
+    (c : R) (per : Bool) (k : Nat) (idx : List Nat) (hd : d < t.length) (hi : idx.length = t.length) :
+    ((t.scalarMul ρ sgn).partialN d c per k).dense idx = a * (t.partialN d c per k).dense idx := by
+  obtain ⟨_, hsh⟩ := C02.scalarMul_wf_shape ρ sgn t ht
+  have hlen : (t.scalarMul ρ sgn).length = t.length := by simpa [shape_length] using congrArg List.length hsh
+  rw [partialN_dense _ d c per (by omega) k idx (by omega), partialN_dense t d c per hd k idx hi, hsh]
+  rw [denseD_iterate_congr t.shape d c per t.length (t.scalarMul ρ sgn).dense (fun i => a * t.dense i + 0 * t.dense i)
+    (fun i hi' => by rw [C02.scalarMul_dense ρ sgn a t ht ha i hi']; ring) k idx hi, denseD_iterate_linear]
+  ring
+
+/-- homogeneity, first order -/
+theorem partial1_scalarMul_dense (ρ sgn a : R) (t : Tensor R) (ht : t.WF) (ha : sgn * ρ ^ t.length = a) (d : Nat)
+    (c : R) (per : Bool) (idx : List Nat) (hd : d < t.length) (hi : idx.length = t.length) :
+    ((t.scalarMul ρ sgn).partial1 d c per).dense idx = a * (t.partial1 d c per).dense idx :=
+  partialN_scalarMul_dense ρ sgn a t ht ha d c per 1 idx hd hi
+
+/-- **affine ↦ constant**: if along mode `d` the fibre of the tensor through `idx` is affine,
+    `x_j = a + b·j`, then its (non-periodic) derivative at `idx` is `2c·b` whatever the position along `d` —
+    interior rows and both linearly-extrapolated boundary rows give the same value -/
+theorem partial1_affine (t : Tensor R) (d : Nat) (c a b : R) (idx : List Nat) (hd : d < t.length)
+    (hi : idx.length = t.length) (hn : 2 ≤ t.shape.getD d 0) (hidx : idx.getD d 0 < t.shape.getD d 0)
+    (haff : ∀ j, t.dense (setAt idx d j) = a + b * (j : R)) :
+    (t.partial1 d c false).dense idx = (c + c) * b := by
+  rw [partial1_dense t d c false idx hd hi]
+  simp only [haff]
+  set n := t.shape.getD d 0
+  set i := idx.getD d 0
+  by_cases h0 : i = 0
+  · rw [h0, stencil_first n c (fun j => a + b * (j : R)) hn]; push_cast; ring
+  · by_cases h1 : i + 1 = n
+    · have : i = n - 1 := by omega
+      rw [this, stencil_last n c (fun j => a + b * (j : R)) hn]
+      obtain ⟨m, hm⟩ : ∃ m, n = m + 2 := ⟨n - 2, by omega⟩
+      rw [hm]
+      have e1 : m + 2 - 1 = m + 1 := by omega
+      have e2 : m + 2 - 2 = m := by omega
+      rw [e1, e2]; push_cast; ring
+    · rw [stencil_interior n i c (fun j => a + b * (j : R)) (by omega) (by omega)]
+      obtain ⟨m, hm⟩ : ∃ m, i = m + 1 := ⟨i - 1, by omega⟩
+      rw [hm]
+      have e1 : m + 1 - 1 = m := by omega
+      rw [e1]; push_cast; ring
+
+/-- tensor-level reading of `partial1_affine`: the derivative of a tensor that is affine along `d`
+    (same `a`, `b` on the whole fibre) is constant along `d` -/
+theorem partial1_affine_const (t : Tensor R) (d : Nat) (c a b : R) (idx : List Nat) (hd : d < t.length)
+    (hi : idx.length = t.length) (hn : 2 ≤ t.shape.getD d 0)
+    (haff : ∀ j, t.dense (setAt idx d j) = a + b * (j : R)) (i i' : Nat) (h : i < t.shape.getD d 0)
+    (h' : i' < t.shape.getD d 0) :
+    (t.partial1 d c false).dense (setAt idx d i) = (t.partial1 d c false).dense (setAt idx d i') := by
+  have hdi : d < idx.length := by omega
+  rw [partial1_affine t d c a b (setAt idx d i) hd (by rw [setAt_length]; exact hi) hn
+      (by rw [getD_setAt_self idx d i hdi]; exact h) (fun j => by rw [setAt_setAt_self]; exact haff j),
+    partial1_affine t d c a b (setAt idx d i') hd (by rw [setAt_length]; exact hi) hn
+      (by rw [getD_setAt_self idx d i' hdi]; exact h') (fun j => by rw [setAt_setAt_self]; exact haff j)]
+
+end
+
+section
+variable [CommRing R]
+
+/-! ### item 4: a list of modes -/
+
+/-- the dense operator of `tn.partial(t, dim=[…], order=k, …)`: for each listed mode in turn, `k`
+    applications of that mode's own stencil (own step, own periodic flag) -/
+def denseDList (shape : List Nat) (order : Nat) (specs : List (Nat × R × Bool)) (f : List Nat → R) : List Nat → R :=
+  specs.foldl (fun g s => (denseD shape s.1 s.2.1 s.2.2)^[order] g) f
+
+/-- `denseDList` on arrays that agree on all index lists of a given length -/
+theorem denseDList_congr (shape : List Nat) (order N : Nat) (specs : List (Nat × R × Bool)) :
+    ∀ (f g : List Nat → R), (∀ idx, idx.length = N → f idx = g idx) →
+    ∀ idx, idx.length = N → denseDList shape order specs f idx = denseDList shape order specs g idx := by
+  induction specs with
+  | nil => intro f g h idx hi; exact h idx hi
+  | cons s specs ih =>
+    intro f g h idx hi
+    simp only [denseDList, List.foldl_cons]
+    exact ih _ _ (fun i hi' => denseD_iterate_congr shape s.1 s.2.1 s.2.2 N f g h order i hi') idx hi
+
+/-- **list of modes**: `tn.partial(t, dim=[d_0, d_1, …], order=k, bounds=[…], periodic=[…])` decompresses to
+    the composition of the single-mode dense operators, in list order, each with its own step and
+    periodic flag; shape and well-formedness are preserved -/
+theorem partialList_dense (order : Nat) (specs : List (Nat × R × Bool)) : ∀ (t : Tensor R),
+    (∀ s ∈ specs, s.1 < t.length) → ∀ idx : List Nat, idx.length = t.length →
+    (t.partialList order specs).dense idx = denseDList t.shape order specs t.dense idx := by
+  induction specs with
+  | nil => intro t _ idx _; rfl
+  | cons s specs ih =>
+    intro t hd idx hi
+    rw [partialList_cons, ih _ (fun s' hs' => by rw [partialN_length]; exact hd s' (List.mem_cons_of_mem _ hs')) idx
+      (by rw [partialN_length]; exact hi), partialN_shape]
+    simp only [denseDList, List.foldl_cons]
+    exact denseDList_congr t.shape order t.length specs _ _
+      (fun i hi' => partialN_dense t s.1 s.2.1 s.2.2 (hd s List.mem_cons_self) order i hi') idx hi
+
+/-- `partial` with a list of modes preserves well-formedness and shape -/
+theorem partialList_wf_shape (t : Tensor R) (order : Nat) (specs : List (Nat × R × Bool)) (ht : t.WF) :
+    (t.partialList order specs).WF ∧ (t.partialList order specs).shape = t.shape :=
+  ⟨partialList_WF order specs t ht, partialList_shape order specs t⟩
+
+/-- **stencils on different modes commute** (as operators on dense arrays, for all steps and flags) -/
+theorem denseD_comm (shape : List Nat) (d d' : Nat) (c c' : R) (per per' : Bool) (h : d ≠ d') (f : List Nat → R) :
+    denseD shape d c per (denseD shape d' c' per' f) = denseD shape d' c' per' (denseD shape d c per f) := by
+  funext idx
+  simp only [denseD, Finset.mul_sum]
+  rw [Finset.sum_comm]
+  apply Finset.sum_congr rfl; intro j' _
+  apply Finset.sum_congr rfl; intro j _
+  rw [getD_setAt_ne idx d d' j h, getD_setAt_ne idx d' d j' (Ne.symm h), setAt_comm idx d d' j j' h]
+  ring
+
+/-- iterated stencils on different modes commute -/
+theorem denseD_iterate_comm (shape : List Nat) (d d' : Nat) (c c' : R) (per per' : Bool) (h : d ≠ d') (k k' : Nat)
+    (f : List Nat → R) :
+    (denseD shape d c per)^[k] ((denseD shape d' c' per')^[k'] f) =
+      (denseD shape d' c' per')^[k'] ((denseD shape d c per)^[k] f) :=
+  Function.Commute.iterate_iterate (fun g => denseD_comm shape d d' c c' per per' h g) k k' f
+
+/-- first-order derivatives along two different modes of a compressed tensor can be taken in either
+    order: the decompressed results coincide -/
+theorem partial1_comm_dense (t : Tensor R) (d d' : Nat) (c c' : R) (per per' : Bool) (h : d ≠ d')
+    (hd : d < t.length) (hd' : d' < t.length) (idx : List Nat) (hi : idx.length = t.length) :
+    ((t.partial1 d c per).partial1 d' c' per').dense idx = ((t.partial1 d' c' per').partial1 d c per).dense idx := by
+  have e1 := partialList_dense 1 [(d, c, per), (d', c', per')] t (by simp [hd, hd']) idx hi
+  have e2 := partialList_dense 1 [(d', c', per'), (d, c, per)] t (by simp [hd, hd']) idx hi
+  simp only [Tensor.partialList, List.foldl_cons, List.foldl_nil, Tensor.partialN, denseDList,
+    Function.iterate_succ, Function.iterate_zero, Function.comp_apply, id_eq] at e1 e2
+  rw [e1, e2, denseD_comm t.shape d d' c c' per per' h]
+
+/-- **the order of the listed modes is irrelevant** when they are pairwise different:
+    any permutation of the `dim` list (with `bounds` and `periodic` permuted along) gives the same
+    decompressed result -/
+theorem partialList_perm_dense (t : Tensor R) (order : Nat) (specs specs' : List (Nat × R × Bool))
+    (hp : specs.Perm specs') (hnd : (specs.map (·.1)).Nodup) (hd : ∀ s ∈ specs, s.1 < t.length)
+    (idx : List Nat) (hi : idx.length = t.length) :
+    (t.partialList order specs).dense idx = (t.partialList order specs').dense idx := by
+  rw [partialList_dense order specs t hd idx hi,
+    partialList_dense order specs' t (fun s hs => hd s (hp.mem_iff.mpr hs)) idx hi]
+  unfold denseDList
+  rw [hp.foldl_eq' (fun x hx y hy z => ?_) t.dense]
+  by_cases hxy : x.1 = y.1
+  · have : x = y := List.inj_on_of_nodup_map hnd hx hy hxy
+    rw [this]
+  · exact denseD_iterate_comm t.shape y.1 x.1 y.2.1 x.2.1 y.2.2 x.2.2 (Ne.symm hxy) order order z
+
+end
+
+section
+variable [CommRing R]
+
+/-! ### item 5: Python `sum`, gradient, divergence, curl, laplacian -/
+
+/-- a left fold of tensor additions over well-formed tensors of one shape adds the entries -/
+theorem foldl_add_dense (s : List Nat) : ∀ (ps : List (Tensor R)) (acc : Tensor R), acc.WF → acc.shape = s →
+    (∀ q ∈ ps, q.WF ∧ q.shape = s) →
+    (ps.foldl Tensor.add acc).WF ∧ (ps.foldl Tensor.add acc).shape = s ∧
+      ∀ idx, (ps.foldl Tensor.add acc).dense idx = acc.dense idx + (ps.map (·.dense idx)).sum := by
+  intro ps
+  induction ps with
+  | nil => intro acc h1 h2 _; exact ⟨h1, h2, fun idx => by simp⟩
+  | cons p ps ih =>
+    intro acc h1 h2 h3
+    obtain ⟨hp1, hp2⟩ := h3 p List.mem_cons_self
+    obtain ⟨a1, a2⟩ := C02.add_wf_shape acc p h1 hp1 (by rw [h2, hp2])
+    obtain ⟨r1, r2, r3⟩ := ih (acc.add p) a1 (by rw [a2, h2]) (fun q hq => h3 q (List.mem_cons_of_mem _ hq))
+    refine ⟨r1, r2, fun idx => ?_⟩
+    simp only [List.foldl_cons, List.map_cons, List.sum_cons]
+    rw [r3 idx, C02.add_dense acc p h1 hp1 (by rw [h2, hp2]) idx]; ring
+
+/-- **Python's `sum` over a list of tensors** of one shape: a well-formed tensor of that shape whose
+    entries are the sums of the entries (the initial `0 + ps[0]` adds the scalar `0`, which changes the
+    ranks — a rank-1 term is appended — but not the values) -/
+theorem pySum_dense (p : Tensor R) (ps : List (Tensor R)) (hp : p.WF) (hps : ∀ q ∈ ps, q.WF ∧ q.shape = p.shape) :
+    ∃ r, pySum (p :: ps) = some r ∧ r.WF ∧ r.shape = p.shape ∧
+      ∀ idx, idx.length = p.length → r.dense idx = ((p :: ps).map (·.dense idx)).sum := by
+  obtain ⟨s1, s2⟩ := C02.scalarAdd_wf_shape 0 p hp
+  obtain ⟨r1, r2, r3⟩ := foldl_add_dense p.shape ps (p.scalarAdd 0) s1 s2 hps
+  refine ⟨_, rfl, r1, r2, fun idx hi => ?_⟩
+  rw [r3 idx, C02.scalarAdd_dense 0 p hp idx hi]; simp
+
+/-- `sum([])` is the integer 0, not a tensor -/
+theorem pySum_nil : pySum ([] : List (Tensor R)) = none := rfl
+
+/-- a single listed mode, order 1 / order `k`: `tn.partial(t, d, order=k, …)` -/
+theorem partialList_single (t : Tensor R) (k d : Nat) (c : R) (per : Bool) :
+    t.partialList k [(d, c, per)] = t.partialN d c per k := rfl
+
+/-- **gradient** (`tn.gradient(t, dim=[…], bounds=[…])`): a list with one tensor per listed mode, each
+    well-formed, of the shape of `t`, decompressing to the dense non-periodic stencil along its own mode
+    with its own step -/
+theorem gradient_dense (t : Tensor R) (specs : List (Nat × R)) (ht : t.WF) (hd : ∀ s ∈ specs, s.1 < t.length)
+    (idx : List Nat) (hi : idx.length = t.length) :
+    (t.gradient specs).length = specs.length ∧ (∀ g ∈ t.gradient specs, g.WF ∧ g.shape = t.shape) ∧
+    (t.gradient specs).map (·.dense idx) = specs.map fun s => denseD t.shape s.1 s.2 false t.dense idx := by
+  refine ⟨by simp [Tensor.gradient], ?_, ?_⟩
+  · intro g hg
+    simp only [Tensor.gradient, List.mem_map] at hg
+    obtain ⟨s, _, rfl⟩ := hg
+    exact partialList_wf_shape t 1 _ ht
+  · simp only [Tensor.gradient, List.map_map]
+    apply List.map_congr_left; intro s hs
+    simp only [Function.comp_apply]
+    rw [partialList_dense 1 [(s.1, s.2, false)] t (by simpa using hd s hs) idx hi]
+    rfl
+
+/-- `tn.gradient(t, dim=d)` with an integer `dim` is the single first-order derivative -/
+theorem gradient_single (t : Tensor R) (d : Nat) (c : R) : t.gradient [(d, c)] = [t.partial1 d c false] := rfl
+
+/-- one term per component -/
+theorem divTerms_length : ∀ (off : Nat) (ts : List (Tensor R)) (cs : List R), cs.length = ts.length →
+    (divTerms off ts cs).length = ts.length := by
+  intro off ts
+  induction ts generalizing off with
+  | nil => intro cs _; cases cs <;> rfl
+  | cons t ts ih =>
+    intro cs h
+    cases cs with
+    | nil => simp at h
+    | cons c cs => simp only [divTerms, List.length_cons, ih (off + 1) cs (by simpa using h)]
+
+/-- the terms of `divergence`: well-formed, of the common shape, and their entry sum is the sum of the per-mode dense stencils -/
+theorem divTerms_spec (s : List Nat) (idx : List Nat) : ∀ (off : Nat) (ts : List (Tensor R)) (cs : List R),
+    cs.length = ts.length → (∀ t ∈ ts, t.WF ∧ t.shape = s) → off + ts.length ≤ s.length → idx.length = s.length →
+    (∀ q ∈ divTerms off ts cs, q.WF ∧ q.shape = s) ∧
+    ((divTerms off ts cs).map (·.dense idx)).sum =
+      ∑ k ∈ range ts.length, denseD s (off + k) (cs.getD k 0) false (ts.getD k []).dense idx := by
+  intro off ts
+  induction ts generalizing off with
+  | nil => intro cs _ _ _ _; cases cs <;> simp [divTerms]
+  | cons t ts ih =>
+    intro cs h hwf hlen hi
+    cases cs with
+    | nil => simp at h
+    | cons c cs =>
+      obtain ⟨ht, hts⟩ := hwf t List.mem_cons_self
+      have htl : t.length = s.length := by rw [← hts, shape_length]
+      simp only [List.length_cons] at hlen
+      obtain ⟨i1, i2⟩ := ih (off + 1) cs (by simpa using h) (fun q hq => hwf q (List.mem_cons_of_mem _ hq))
+        (by omega) hi
+      constructor
+      · intro q hq
+        simp only [divTerms, List.mem_cons] at hq
+        rcases hq with rfl | hq
+        · obtain ⟨w1, w2⟩ := partialList_wf_shape t 1 [(off, c, false)] ht
+          exact ⟨w1, by rw [w2, hts]⟩
+        · exact i1 q hq
+      · simp only [divTerms, List.map_cons, List.sum_cons, List.length_cons]
+        rw [Finset.sum_range_succ', i2,
+          partialList_dense 1 [(off, c, false)] t (by simp; omega) idx (by omega), hts]
+        simp only [List.getD_cons_succ, List.getD_cons_zero, Nat.add_zero]
+        rw [add_comm]
+        congr 1
+        apply Finset.sum_congr rfl; intro k _
+        rw [show off + 1 + k = off + (k + 1) by omega]
+
+/-- **divergence** (`tn.divergence(ts, bounds)`): for `N` well-formed `N`-mode tensors of one shape and `N`
+    steps the three assertions pass, and the result is a well-formed tensor of that shape whose entries
+    are `Σ_n (∂_n ts[n])`, each derivative being the dense non-periodic stencil along mode `n` with the
+    step of mode `n`, applied to the `n`-th component -/
+theorem divergence_dense (t0 : Tensor R) (ts : List (Tensor R)) (cs : List R)
+    (hwf : ∀ t ∈ t0 :: ts, t.WF ∧ t.shape = t0.shape) (hdim : t0.length = (t0 :: ts).length)
+    (hcs : cs.length = (t0 :: ts).length) :
+    ∃ r, divergence (t0 :: ts) cs = some r ∧ r.WF ∧ r.shape = t0.shape ∧
+      ∀ idx, idx.length = t0.length → r.dense idx =
+        ∑ n ∈ range (t0 :: ts).length, denseD t0.shape n (cs.getD n 0) false ((t0 :: ts).getD n []).dense idx := by
+  have hall : (t0 :: ts).all (fun t => t.shape == t0.shape) = true := by
+    rw [List.all_eq_true]; intro t ht; simpa using (hwf t ht).2
+  have hdiv : divergence (t0 :: ts) cs = pySum (divTerms 0 (t0 :: ts) cs) := by
+    simp only [divergence]
+    rw [hall, hcs, ← hdim]
+    simp
+  cases cs with
+  | nil => simp at hcs
+  | cons c cs =>
+    have hsl : t0.shape.length = t0.length := shape_length t0
+    have hsp := fun idx (hi : idx.length = t0.shape.length) =>
+      divTerms_spec t0.shape idx 0 (t0 :: ts) (c :: cs) hcs hwf (by omega) hi
+    obtain ⟨q1, _⟩ := hsp (List.replicate t0.shape.length 0) (by simp)
+    simp only [divTerms] at q1 hdiv hsp
+    obtain ⟨w1, w2⟩ := q1 _ List.mem_cons_self
+    obtain ⟨r, e1, e2, e3, e4⟩ := pySum_dense _ (divTerms (0 + 1) ts cs) w1
+      (fun q hq => by obtain ⟨a, b⟩ := q1 q (List.mem_cons_of_mem _ hq); exact ⟨a, by rw [b, w2]⟩)
+    refine ⟨r, by rw [hdiv]; exact e1, e2, by rw [e3, w2], fun idx hi => ?_⟩
+    have hpl : (Tensor.partialList t0 1 [(0, c, false)]).length = t0.length := partialList_length _ _ _
+    rw [e4 idx (by rw [hpl]; exact hi), (hsp idx (by omega)).2]
+    simp
+
+/-- **curl** (`tn.curl(ts, bounds)`) of three well-formed 3-mode tensors of one shape: three tensors whose
+    entries are `∂_1 ts[2] − ∂_2 ts[1]`, `∂_2 ts[0] − ∂_0 ts[2]`, `∂_0 ts[1] − ∂_1 ts[0]`, each derivative
+    with the step of its own mode -/
+theorem curl_dense (t0 t1 t2 : Tensor R) (c0 c1 c2 : R) (h0 : t0.WF) (h1 : t1.WF) (h2 : t2.WF)
+    (s1 : t1.shape = t0.shape) (s2 : t2.shape = t0.shape) (hN : t0.length = 3) :
+    ∃ r0 r1 r2, curl [t0, t1, t2] [c0, c1, c2] = some [r0, r1, r2] ∧ ∀ idx : List Nat, idx.length = 3 →
+      r0.dense idx = denseD t0.shape 1 c1 false t2.dense idx - denseD t0.shape 2 c2 false t1.dense idx ∧
+      r1.dense idx = denseD t0.shape 2 c2 false t0.dense idx - denseD t0.shape 0 c0 false t2.dense idx ∧
+      r2.dense idx = denseD t0.shape 0 c0 false t1.dense idx - denseD t0.shape 1 c1 false t0.dense idx := by
+  refine ⟨_, _, _, rfl, fun idx hi => ?_⟩
+  have l1 : t1.length = 3 := by rw [← shape_length, s1, shape_length, hN]
+  have l2 : t2.length = 3 := by rw [← shape_length, s2, shape_length, hN]
+  have key : ∀ (a b : Tensor R) (da db : Nat) (ca cb : R), a.WF → b.WF → a.shape = t0.shape → b.shape = t0.shape →
+      da < 3 → db < 3 →
+      ((a.partialList 1 [(da, ca, false)]).sub (b.partialList 1 [(db, cb, false)])).dense idx =
+        denseD t0.shape da ca false a.dense idx - denseD t0.shape db cb false b.dense idx := by
+    intro a b da db ca cb ha hb sa sb hda hdb
+    have la : a.length = 3 := by rw [← shape_length, sa, shape_length, hN]
+    have lb : b.length = 3 := by rw [← shape_length, sb, shape_length, hN]
+    obtain ⟨wa, sha⟩ := partialList_wf_shape a 1 [(da, ca, false)] ha
+    obtain ⟨wb, shb⟩ := partialList_wf_shape b 1 [(db, cb, false)] hb
+    rw [C02.sub_dense _ _ wa wb (by rw [sha, shb, sa, sb]) idx (by rw [partialList_length, la, hi]),
+      partialList_dense 1 _ a (by simp; omega) idx (by omega),
+      partialList_dense 1 _ b (by simp; omega) idx (by omega), sa, sb]
+    rfl
+  exact ⟨key t2 t1 1 2 c1 c2 h2 h1 s2 s1 (by omega) (by omega),
+    key t0 t2 2 0 c2 c0 h0 h2 rfl s2 (by omega) (by omega),
+    key t1 t0 0 1 c0 c1 h1 h0 s1 rfl (by omega) (by omega)⟩
+
+/-- the terms of `laplacian`: well-formed, of the shape of `t`, and their entry sum is the sum of the twice-applied per-mode dense stencils -/
+theorem lapTerms_spec (t : Tensor R) (ht : t.WF) (idx : List Nat) (hi : idx.length = t.length) :
+    ∀ (off : Nat) (cs : List R), off + cs.length ≤ t.length →
+    (∀ q ∈ lapTerms t off cs, q.WF ∧ q.shape = t.shape) ∧
+    ((lapTerms t off cs).map (·.dense idx)).sum =
+      ∑ k ∈ range cs.length, (denseD t.shape (off + k) (cs.getD k 0) false)^[2] t.dense idx := by
+  intro off cs
+  induction cs generalizing off with
+  | nil => intro _; simp [lapTerms]
+  | cons c cs ih =>
+    intro hlen
+    simp only [List.length_cons] at hlen
+    obtain ⟨i1, i2⟩ := ih (off + 1) (by omega)
+    constructor
+    · intro q hq
+      simp only [lapTerms, List.mem_cons] at hq
+      rcases hq with rfl | hq
+      · exact partialList_wf_shape t 2 [(off, c, false)] ht
+      · exact i1 q hq
+    · simp only [lapTerms, List.map_cons, List.sum_cons, List.length_cons]
+      rw [Finset.sum_range_succ', i2, partialList_dense 2 [(off, c, false)] t (by simp; omega) idx hi]
+      simp only [List.getD_cons_succ, List.getD_cons_zero, Nat.add_zero, denseDList, List.foldl_cons, List.foldl_nil]
+      rw [add_comm]
+      congr 1
+      apply Finset.sum_congr rfl; intro k _
+      rw [show off + 1 + k = off + (k + 1) by omega]
+
+/-- **Laplacian** (`tn.laplacian(t, bounds)`): with one step per mode the assertion passes and the result
+    is a well-formed tensor of the shape of `t` whose entries are `Σ_n (∂_n ∂_n t)`: for every mode the
+    dense non-periodic stencil of that mode (its own step) applied twice to the decompressed array -/
+theorem laplacian_dense (t : Tensor R) (cs : List R) (ht : t.WF) (hcs : cs.length = t.length) :
+    ∃ r, t.laplacian cs = some r ∧ r.WF ∧ r.shape = t.shape ∧
+      ∀ idx, idx.length = t.length → r.dense idx =
+        ∑ n ∈ range t.length, (denseD t.shape n (cs.getD n 0) false)^[2] t.dense idx := by
+  have hlap : t.laplacian cs = pySum (lapTerms t 0 cs) := by
+    unfold Tensor.laplacian; simp [hcs]
+  have hpos : 0 < t.length := by
+    cases t with
+    | nil => exact absurd ht (by simp [Tensor.WF])
+    | cons m ms => simp
+  cases cs with
+  | nil => simp at hcs; omega
+  | cons c cs =>
+    have hsp := fun idx (hi : idx.length = t.length) => lapTerms_spec t ht idx hi 0 (c :: cs) (by omega)
+    obtain ⟨q1, _⟩ := hsp (List.replicate t.length 0) (by simp)
+    simp only [lapTerms] at q1 hlap hsp
+    obtain ⟨w1, w2⟩ := q1 _ List.mem_cons_self
+    obtain ⟨r, e1, e2, e3, e4⟩ := pySum_dense _ (lapTerms t (0 + 1) cs) w1
+      (fun q hq => by obtain ⟨a, b⟩ := q1 q (List.mem_cons_of_mem _ hq); exact ⟨a, by rw [b, w2]⟩)
+    refine ⟨r, by rw [hlap]; exact e1, e2, by rw [e3, w2], fun idx hi => ?_⟩
+    have hpl : (Tensor.partialList t 2 [(0, c, false)]).length = t.length := partialList_length _ _ _
+    rw [e4 idx (by rw [hpl]; exact hi), (hsp idx hi).2, ← hcs]
+    simp
+
+/-- the assertions of `laplacian` / `divergence`: a wrong number of steps is rejected -/
+theorem laplacian_badlen (t : Tensor R) (cs : List R) (h : cs.length ≠ t.length) : t.laplacian cs = none := by
+  unfold Tensor.laplacian; simp [h]
+
+end
+
+/-! ### the hypotheses are satisfiable: concrete instances -/
+section examples
+
+/-- a 2-mode tensor of shape `[3, 4]`: a TT core with a Tucker factor, then a CP factor -/
+def exD : Tensor Int :=
+  [ { core := .tt 1 2 2 (fun _ j b => (j : Int) + b), U := some { rows := 3, cols := 2, f := fun i j => (i : Int) * i - j } },
+    { core := .cp 4 2 (fun j k => (j : Int) * 2 + k), U := none } ]
+/-- a 1-mode tensor whose entries are affine in the index: `3 + 5·j`, `j < 4` -/
+def exAff : Tensor Int := [ { core := .tt 1 4 1 (fun _ j _ => 3 + 5 * (j : Int)), U := none } ]
+/-- a 3-mode rank-1 tensor of shape `[2, 3, 2]` -/
+def exE : Tensor Int :=
+  [ { core := .tt 1 2 1 (fun _ j _ => (j : Int) + 1), U := none },
+    { core := .tt 1 3 1 (fun _ j _ => (j : Int) * j), U := none },
+    { core := .tt 1 2 1 (fun _ j _ => 2 - (j : Int)), U := none } ]
+
+/-- `exD` is well-formed -/
+theorem exD_wf : exD.WF := by simp [exD, Tensor.WF, Tensor.WFfrom, TMode.ok, Core.rl, Core.rr, Core.spatial]
+/-- `exD` has shape `[3, 4]` -/
+theorem exD_shape : exD.shape = [3, 4] := by simp [exD, Tensor.shape, TMode.n, Core.spatial]
+/-- `exE` is well-formed -/
+theorem exE_wf : exE.WF := by simp [exE, Tensor.WF, Tensor.WFfrom, TMode.ok, Core.rl, Core.rr]
+/-- `exE` has shape `[2, 3, 2]` -/
+theorem exE_shape : exE.shape = [2, 3, 2] := by simp [exE, Tensor.shape, TMode.n, Core.spatial]
+/-- `exAff` is well-formed -/
+theorem exAff_wf : exAff.WF := by simp [exAff, Tensor.WF, Tensor.WFfrom, TMode.ok, Core.rl]
+
+example : (∑ j ∈ range 3, stencilL 3 (2 : Int) true 0 j * ((j : Int) * j)) = 2 * ((1 : Int) * 1 - 2 * 2) :=
+  stencil_periodic 3 0 2 (fun j => (j : Int) * j) (by decide)
+example : (∑ j ∈ range 1, stencilL 1 (2 : Int) true 0 j * 7) = 0 := by
+  rw [stencil_periodic 1 0 2 (fun _ => (7 : Int)) (by decide)]; simp
+example : rollFwd 4 = [1, 2, 3, 0] ∧ rollBwd 4 = [3, 0, 1, 2] ∧ rollFwd 1 = [0] ∧ rollBwd 1 = [0] ∧
+    rollFwd 2 = [1, 0] ∧ rollBwd 2 = [1, 0] := by decide
+example : stencilStepsNP 4 (1 : Int) (fun j => (j : Int) * j) 0 = ∑ j ∈ range 4, stencilL 4 1 false 0 j * ((j : Int) * j) :=
+  stencilStepsNP_eq 4 0 1 _ (by decide) (by decide)
+
+example : (exD.partialN 1 3 true 2).dense [2, 3] = (denseD exD.shape 1 3 true)^[2] exD.dense [2, 3] :=
+  partialN_dense exD 1 3 true (by simp [exD]) 2 [2, 3] (by simp [exD])
+example : (exD.partialN 0 3 false 3).WF ∧ (exD.partialN 0 3 false 3).shape = [3, 4] := by
+  obtain ⟨h1, h2, _⟩ := partialN_wf_shape exD 0 3 false 3 exD_wf
+  exact ⟨h1, by rw [h2, exD_shape]⟩
+example : ((exD.add exD).partial1 0 2 false).dense [1, 2] =
+    (exD.partial1 0 2 false).dense [1, 2] + (exD.partial1 0 2 false).dense [1, 2] :=
+  partial1_add_dense exD exD exD_wf exD_wf rfl 0 2 false [1, 2] (by simp [exD]) (by simp [exD])
+example : ((exD.scalarMul 2 (-1)).partialN 1 5 true 2).dense [0, 1] = (-4) * (exD.partialN 1 5 true 2).dense [0, 1] :=
+  partialN_scalarMul_dense 2 (-1) (-4) exD exD_wf (by simp [exD]) 1 5 true 2 [0, 1] (by simp [exD]) (by simp [exD])
+example : (exAff.partial1 0 2 false).dense [3] = (2 + 2) * 5 :=
+  partial1_affine exAff 0 2 3 5 [3] (by simp [exAff]) (by simp [exAff])
+    (by simp [exAff, Tensor.shape, TMode.n, Core.spatial]) (by simp [exAff, Tensor.shape, TMode.n, Core.spatial])
+    (fun j => by
+      simp [exAff, setAt, Tensor.dense, Tensor.modes, TMode.toMode, TN.dense, tail, sumTo, TMode.decomp, Core.get,
+        Core.rl, Core.rr])
+example : (exD.partialList 2 [(1, 3, true), (0, 1, false)]).dense [2, 0] =
+    (exD.partialList 2 [(0, 1, false), (1, 3, true)]).dense [2, 0] :=
+  partialList_perm_dense exD 2 _ _ (List.Perm.swap _ _ _) (by decide) (by simp [exD]) [2, 0] (by simp [exD])
+example : ∃ r, exD.laplacian [1, 2] = some r ∧ r.WF ∧ r.shape = [3, 4] := by
+  obtain ⟨r, h1, h2, h3, _⟩ := laplacian_dense exD [1, 2] exD_wf (by simp [exD])
+  exact ⟨r, h1, h2, by rw [h3, exD_shape]⟩
+example : ∃ r, divergence [exD, exD] [1, 2] = some r ∧ r.WF ∧ r.shape = [3, 4] := by
+  obtain ⟨r, h1, h2, h3, _⟩ := divergence_dense exD [exD] [1, 2] (by simp [exD_wf]) (by simp [exD]) (by simp)
+  exact ⟨r, h1, h2, by rw [h3, exD_shape]⟩
+example : ∃ r0 r1 r2, curl [exE, exE, exE] [1, 2, 3] = some [r0, r1, r2] := by
+  obtain ⟨r0, r1, r2, h, _⟩ := curl_dense exE exE exE 1 2 3 exE_wf exE_wf exE_wf rfl rfl (by simp [exE])
+  exact ⟨r0, r1, r2, h⟩
+example : ((exD.gradient [(0, 1), (1, 2)]).map (·.dense [1, 1])) =
+    [denseD exD.shape 0 1 false exD.dense [1, 1], denseD exD.shape 1 2 false exD.dense [1, 1]] :=
+  (gradient_dense exD [(0, 1), (1, 2)] exD_wf (by simp [exD]) [1, 1] (by simp [exD])).2.2
+
+end examples
+
+section
+variable [CommRing R]
+
+/-! ### item 7: `tn.mask` and `partialset` -/
+
+/-- **`tn.mask(t, mask)`**: with an annotation `idxs` that has one label per slice of `t`, the result is a
+    well-formed tensor of the shape of `t`, and each entry of `t` is multiplied by the mask entry at its
+    labels (clamped to the mask's sizes) -/
+theorem maskWith_dense (t mask : Tensor R) (idxs : List (List Nat)) (ht : t.WF) (hm : mask.WF)
+    (hl : idxs.length = mask.length) (hsh : idxs.map List.length = t.shape) (hpos : ∀ n ∈ mask.shape, 0 < n) :
+    (t.maskWith idxs mask).WF ∧ (t.maskWith idxs mask).shape = t.shape ∧
+      ∀ idx : List Nat, idx.length = t.length →
+        (t.maskWith idxs mask).dense idx = t.dense idx * mask.dense (clampLabels idxs mask.shape idx) := by
+  unfold Tensor.maskWith
+  set L := List.zipWith (fun lab (m : TMode R) => some (lab.length, sel (R := R) fun i => min (lab.getD i 0) (m.n - 1)))
+    idxs mask with hL
+  have hg : (mask.linModes L).WF := WF_linModes_dv L mask hm
+  have hs : t.shape = (mask.linModes L).shape := by rw [hL, shape_gather idxs mask hl, hsh]
+  have htl : t.length = mask.length := by
+    rw [← hl, ← shape_length, ← hsh]; simp
+  obtain ⟨w1, w2⟩ := C02.mul_wf_shape t _ ht hg hs
+  refine ⟨w1, w2, fun idx hi => ?_⟩
+  rw [C02.mul_dense t _ ht hg hs idx]
+  congr 1
+  unfold Tensor.dense
+  rw [dense_linModes mask L idx (by rw [hL]; simp [hl]) (by omega), hL,
+    applyMaps_gather idxs mask idx _ hl (by omega) hpos]
+
+/-- the two steps of `partialset` after the choice of the mask: stack the forward differences, then
+    `tn.mask` with a mask `wm` over the symbols `0 … k` per mode.  Nothing raises when every mode is larger
+    than `k`; the entry at the slices addressed by (order `o_n`, offset `i_n`) is the mixed forward
+    difference of the decompressed input times the mask's entry at the orders `(o_1, …, o_N)` -/
+theorem partialStack_mask_dense (t : Tensor R) (k : Nat) (cs : List R) (wm : Tensor R) (ht : t.WF)
+    (hc : cs.length = t.length) (hk : ∀ s ∈ t.shape, k < s) (mwf : wm.WF)
+    (msh : wm.shape = List.replicate t.length (k + 1)) :
+    ∃ d, t.partialStack cs k = some d ∧ (d.maskWith (t.shape.map fun s => blockLabels s k) wm).WF ∧
+      (d.maskWith (t.shape.map fun s => blockLabels s k) wm).shape = t.shape.map (fun s => blockStart s (k + 1)) ∧
+      ∀ os is : List Nat, stackOK k t.shape os is →
+        (d.maskWith (t.shape.map fun s => blockLabels s k) wm).dense (stackRows t.shape os is) =
+          multiDiff (List.zip cs os) t.dense is * wm.dense os := by
+  obtain ⟨d, hd⟩ := partialStack_some k t cs hc hk
+  have hpos : 0 < t.length := by
+    cases t with
+    | nil => exact absurd ht (by simp [Tensor.WF])
+    | cons m ms => simp
+  have hdw : d.WF ∧ d.shape = t.shape.map (fun s => blockStart s (k + 1)) ∧ d.length = t.length := by
+    cases t with
+    | nil => simp at hpos
+    | cons m ms =>
+      obtain ⟨a1, a2, a3⟩ := partialStack_wf_shape k (m :: ms) cs d m.core.rl hd hk ht
+      exact ⟨WF_of_WFfrom d _ a1 (by intro h; rw [h] at a3; simp at a3), a2, a3⟩
+  obtain ⟨dwf, dsh, dlen⟩ := hdw
+  have mlen : wm.length = t.length := by rw [← shape_length, msh]; simp
+  obtain ⟨r1, r2, r3⟩ := maskWith_dense d wm (t.shape.map fun s => blockLabels s k) dwf mwf
+    (by rw [mlen]; simp [shape_length])
+    (by rw [dsh, List.map_map]; apply List.map_congr_left; intro s _; simp [blockLabels_length])
+    (by rw [msh]; intro n hn; rw [List.eq_of_mem_replicate hn]; omega)
+  refine ⟨d, hd, r1, by rw [r2, dsh], fun os is hok => ?_⟩
+  obtain ⟨l1, l2⟩ := stackRows_length k t.shape os is hok
+  rw [shape_length] at l1 l2
+  rw [r3 _ (by rw [l1, dlen]), msh]
+  have hcl := clamp_stackRows k t.shape os is hok
+  rw [shape_length] at hcl
+  rw [hcl]
+  unfold Tensor.dense
+  rw [dense_partialStack k t cs d os is hd hc hok]
+
+/-- **`partialset`** (no user mask): for requested total orders `order ≠ []`, `k = max(order)`, and every
+    mode larger than `k`, nothing raises; the result is a well-formed tensor with `Σ_{o ≤ k} (s_n − o)`
+    slices along mode `n`; the slice combination addressed by (order `o_n`, offset `i_n`) per mode holds
+    the mixed forward difference of the decompressed input (`o_n`-fold along mode `n`, with that mode's
+    own step) if the total order `Σ o_n` is requested (as often as it is listed), and `0` otherwise -/
+theorem partialset_dense (t : Tensor R) (order : List Nat) (cs : List R) (ht : t.WF) (hc : cs.length = t.length)
+    (hne : order ≠ []) (hk : ∀ s ∈ t.shape, order.foldl max 0 < s) :
+    ∃ r, t.partialset order cs Option.none = some r ∧ r.WF ∧
+      r.shape = t.shape.map (fun s => blockStart s (order.foldl max 0 + 1)) ∧
+      ∀ os is : List Nat, stackOK (order.foldl max 0) t.shape os is →
+        r.dense (stackRows t.shape os is) = multiDiff (List.zip cs os) t.dense is * countW order os.sum := by
+  set k := order.foldl max 0 with hkdef
+  have hpos : 0 < t.length := by
+    cases t with
+    | nil => exact absurd ht (by simp [Tensor.WF])
+    | cons m ms => simp
+  have hrep : List.replicate t.length (k + 1) ≠ [] := by
+    intro h; have := congrArg List.length h; rw [List.length_replicate, List.length_nil] at this; omega
+  obtain ⟨mwf, msh⟩ := weightMask_wf_shape (R := R) order (k + 1) (List.replicate t.length (k + 1)) hrep
+  obtain ⟨d, hd, r1, r2, r3⟩ := partialStack_mask_dense t k cs _ ht hc hk mwf msh
+  have hres : t.partialset order cs Option.none =
+      some (d.maskWith (t.shape.map fun s => blockLabels s k)
+        (weightMask order (k + 1) (List.replicate t.length (k + 1)))) := by
+    unfold Tensor.partialset
+    have : order.isEmpty = false := by cases order with
+      | nil => exact absurd rfl hne
+      | cons _ _ => rfl
+    simp only [this, Bool.false_eq_true, if_false, ← hkdef, hd]
+  refine ⟨_, hres, r1, r2, fun os is hok => ?_⟩
+  obtain ⟨_, l2⟩ := stackRows_length k t.shape os is hok
+  rw [shape_length] at l2
+  rw [r3 os is hok]
+  congr 1
+  exact C16.weightMask_dense order (k + 1)
+    (fun w hw => Nat.lt_succ_of_le (le_foldl_max order 0 w (Or.inl hw)))
+    (List.replicate t.length (k + 1)) os hrep (by simp [l2])
+
+/-- **`partialset` with a user mask** `u` (one symbol axis per mode; symbols `≥` its size are clamped to its
+    last slice, as `tn.mask` does): as `partialset_dense`, each slice combination additionally multiplied by
+    the user mask's entry at the (clamped) orders -/
+theorem partialset_mask_dense (t u : Tensor R) (order : List Nat) (cs : List R) (ht : t.WF) (hu : u.WF)
+    (hc : cs.length = t.length) (hul : u.length = t.length) (hupos : ∀ n ∈ u.shape, 0 < n)
+    (hne : order ≠ []) (hk : ∀ s ∈ t.shape, order.foldl max 0 < s) :
+    ∃ r, t.partialset order cs (some u) = some r ∧ r.WF ∧
+      r.shape = t.shape.map (fun s => blockStart s (order.foldl max 0 + 1)) ∧
+      ∀ os is : List Nat, stackOK (order.foldl max 0) t.shape os is →
+        r.dense (stackRows t.shape os is) = multiDiff (List.zip cs os) t.dense is *
+          (countW order os.sum *
+            u.dense (clampLabels ((List.replicate t.length (order.foldl max 0 + 1)).map List.range) u.shape os)) := by
+  set k := order.foldl max 0 with hkdef
+  have hpos : 0 < t.length := by
+    cases t with
+    | nil => exact absurd ht (by simp [Tensor.WF])
+    | cons m ms => simp
+  have hrep : List.replicate t.length (k + 1) ≠ [] := by
+    intro h; have := congrArg List.length h; rw [List.length_replicate, List.length_nil] at this; omega
+  obtain ⟨mwf, msh⟩ := weightMask_wf_shape (R := R) order (k + 1) (List.replicate t.length (k + 1)) hrep
+  have mlen : (weightMask (R := R) order (k + 1) (List.replicate t.length (k + 1))).length = t.length := by
+    rw [← shape_length, msh]; simp
+  obtain ⟨v1, v2, v3⟩ := maskWith_dense (weightMask (R := R) order (k + 1) (List.replicate t.length (k + 1))) u
+    ((weightMask (R := R) order (k + 1) (List.replicate t.length (k + 1))).shape.map List.range) mwf hu
+    (by simp [shape_length, mlen, hul])
+    (by rw [List.map_map]; exact (List.map_congr_left (fun s _ => by simp)).trans (List.map_id _)) hupos
+  obtain ⟨d, hd, r1, r2, r3⟩ := partialStack_mask_dense t k cs _ ht hc hk v1 (by rw [v2, msh])
+  have hres : t.partialset order cs (some u) = some (d.maskWith (t.shape.map fun s => blockLabels s k)
+      ((weightMask (R := R) order (k + 1) (List.replicate t.length (k + 1))).maskWith
+        ((weightMask (R := R) order (k + 1) (List.replicate t.length (k + 1))).shape.map List.range) u)) := by
+    unfold Tensor.partialset
+    have : order.isEmpty = false := by cases order with
+      | nil => exact absurd rfl hne
+      | cons _ _ => rfl
+    simp only [this, Bool.false_eq_true, if_false, ← hkdef, hd]
+  refine ⟨_, hres, r1, r2, fun os is hok => ?_⟩
+  obtain ⟨_, l2⟩ := stackRows_length k t.shape os is hok
+  rw [shape_length] at l2
+  rw [r3 os is hok, v3 os (by rw [mlen, l2]), msh]
+  congr 2
+  exact C16.weightMask_dense order (k + 1)
+    (fun w hw => Nat.lt_succ_of_le (le_foldl_max order 0 w (Or.inl hw)))
+    (List.replicate t.length (k + 1)) os hrep (by simp [l2])
+
+/-- a core whose spatial size is not larger than the maximal order makes the stacking loop raise (`diff`
+    is eventually handed a core with a single slice): `partialset` needs `max(order) < shape[n]` for every mode -/
+theorem stackDiffs_raise (c : R) : ∀ (k : Nat) (core : Core R), 0 < core.spatial → core.spatial ≤ k →
+    stackDiffs c k core = none := by
+  intro k
+  induction k with
+  | zero => intro core h1 h2; omega
+  | succ k ih =>
+    intro core h1 h2
+    simp only [stackDiffs]
+    by_cases h : core.spatial = 1
+    · simp [h]
+    · have hne : (core.spatial == 1) = false := by simpa using h
+      rw [hne, ih (core.fwdDiff c) (by simp; omega) (by simp; omega)]; rfl
+
+example : ∃ r, exD.partialset [1, 2] [1, 3] Option.none = some r ∧ r.WF ∧ r.shape = [6, 9] := by
+  obtain ⟨r, h1, h2, h3, _⟩ := partialset_dense exD [1, 2] [1, 3] exD_wf (by simp [exD]) (by simp)
+    (by rw [exD_shape]; intro s hs; simp at hs; rcases hs with rfl | rfl <;> decide)
+  exact ⟨r, h1, h2, by rw [h3, exD_shape]; decide⟩
+example : stackOK 2 [3, 4] [1, 1] [1, 2] ∧ stackRows [3, 4] [1, 1] [1, 2] = [4, 6] := by
+  simp [stackOK, stackRows, blockStart]
+
+end
+
+section
+/-- the index at which the user mask is read in `partialset_mask_dense`, spelled out: order `o_n`, clamped
+    to the user mask's last symbol -/
+theorem clampLabels_range (k : Nat) : ∀ (os ns : List Nat), os.length = ns.length → (∀ o ∈ os, o ≤ k) →
+    clampLabels ((List.replicate os.length (k + 1)).map List.range) ns os =
+      List.zipWith (fun o n => min o (n - 1)) os ns := by
+  intro os
+  induction os with
+  | nil => intro ns h _; cases ns <;> simp_all [clampLabels]
+  | cons o os ih =>
+    intro ns h ho
+    cases ns with
+    | nil => simp at h
+    | cons n ns =>
+      have h1 : o ≤ k := ho o List.mem_cons_self
+      simp only [List.length_cons, List.replicate_succ, List.map_cons, clampLabels, List.zipWith_cons_cons]
+      rw [ih ns (by simpa using h) (fun o' ho' => ho o' (List.mem_cons_of_mem _ ho'))]
+      congr 2
+      rw [List.getD_eq_getElem?_getD, List.getElem?_range (by omega)]; rfl
+end
+
 end TN.C20
